@@ -42,8 +42,15 @@ pub fn targeted(seed: u64, tier: &str) -> Vec<Doc> {
                     );
                 }
                 format!(
-                    r##"{HDR}<defs><linearGradient id="lg"><stop offset="0" stop-color="red"/><stop offset="1" stop-color="blue"/></linearGradient><radialGradient id="rg" xlink:href="#lg"/><pattern id="pt" width="0.5" height="0.5" patternContentUnits="{}"><rect width="0.2" height="0.2" fill="url(#lg)"/></pattern><clipPath id="cp" clipPathUnits="objectBoundingBox"><rect width="0.8" height="0.8"/></clipPath><mask id="mk" maskContentUnits="{}"><rect width="1" height="1" fill="white"/></mask><filter id="fl" primitiveUnits="{}"><feFlood flood-color="green" result="a"/><feOffset in="a" dx="0.1" result="b"/><feMerge><feMergeNode in="b"/><feMergeNode in="SourceGraphic"/></feMerge></filter></defs>{body}</svg>"##,
-                    units(&mut rng), units(&mut rng), units(&mut rng)
+                    r##"{HDR}<defs><linearGradient id="lg"><stop offset="0" stop-color="red"/><stop offset="1" stop-color="blue"/></linearGradient><radialGradient id="rg" xlink:href="#lg"/><pattern id="pt" {} patternContentUnits="{}"><rect width="0.2" height="0.2" fill="url(#lg)"/></pattern><clipPath id="cp" clipPathUnits="objectBoundingBox"><rect width="0.8" height="0.8"/></clipPath><mask id="mk" {} maskContentUnits="{}"><rect width="1" height="1" fill="white"/></mask><filter id="fl" {} primitiveUnits="{}"><feFlood flood-color="green" result="a"/><feOffset in="a" dx="0.1" result="b"/><feMerge><feMergeNode in="b"/><feMergeNode in="SourceGraphic"/></feMerge></filter></defs>{body}</svg>"##,
+                    // the region units vary independently of the content units (a definition is shared between
+                    // elements exactly when NEITHER depends on the element's box)
+                    if rng.chance(1, 2) { r#"width="0.5" height="0.5""# } else { r#"patternUnits="userSpaceOnUse" width="8" height="8""# },
+                    units(&mut rng),
+                    if rng.chance(1, 2) { "" } else { r#"maskUnits="userSpaceOnUse" x="0" y="0" width="100" height="100""# },
+                    units(&mut rng),
+                    if rng.chance(1, 2) { "" } else { r#"filterUnits="userSpaceOnUse" x="0" y="0" width="120" height="120""# },
+                    units(&mut rng)
                 )
             }
             2 => {
